@@ -136,7 +136,7 @@ def main(tier):
         if dev > 1e-9 * max(1.0, float(np.abs(jo).max()), float(np.abs(jf).max())):
             chk.violation(dict(clause="jit-vs-interpreted", fabric=c["fab"], regime=c["regime"]), f"compiled and interpreted solvers differ by {dev:.3g}", dict(case=c, par=par))
     chk.cov["interpreted_cases"] = len(nojit_pairs)
-    size_sweep(chk, cases, 16384 if quick else 40000, grid)
+    size_sweep(chk, cases, 16384 if quick else 32768, grid)
     # negative control: a perturbed expectation (role swap in the program) must be flagged
     probe = Check("C02", tier, dry=True)
     c = dict(usable[7])
